@@ -13,7 +13,7 @@ PROPERTY = "C07"
 LEVEL = "exploration"
 RULE = (
     "case = (statement kind in {match, await, when, match-finished}, and/or tree over distinct leaves, "
-    "ordered subset of the leaves as event sequence, mode in {plain, noisy (irrelevant and repeated events), dups, aged (>5 s virtual idle time before every event)}); quick enumerates ALL trees with <=4 leaves x ALL ordered "
+    "ordered subset of the leaves as event sequence, mode in {plain, noisy (irrelevant and repeated events), dups, aged (>5 s virtual idle time before every event), loop (statement inside `while True`, event sequences with repeats; every completion index compared)}); quick enumerates ALL trees with <=4 leaves x ALL ordered "
     "subsets (thorough: <=5 leaves, sampled 6-7); non-trivial = formula has both an `and` and an `or`, or >=3 leaves, "
     "and the marker's first-true index was actually compared; distinct = (kind, tree, sequence, mode)"
 )
@@ -69,6 +69,23 @@ def leaves_of(t):
     if isinstance(t, str):
         return [t]
     return leaves_of(t[1]) + leaves_of(t[2])
+
+
+def loop_program(t, kind):
+    """the group statement inside `while True`: every completion re-activates it"""
+    leaves = leaves_of(t)
+    fname = lambda x: "f" + x.lower().replace("e", "x")  # noqa: E731
+    flows = "".join("flow %s\n  match %s()\n\n" % (fname(x), x) for x in leaves)
+    if kind == "match":
+        return "flow main\n  while True\n    match %s\n    send Done()\n" % render(t, lambda x: x + "()")
+    if kind == "await":
+        return "flow main\n  while True\n    await %s\n    send Done()\n\n%s" % (render(t, fname), flows)
+    if kind == "when":
+        return "flow main\n  while True\n    when %s\n      send Done()\n\n%s" % (render(t, fname), flows)
+    if kind == "matchfin":
+        starts = "".join("    start %s as $r%s\n" % (fname(x), x.lower()) for x in leaves)
+        return "flow main\n  while True\n%s    match %s\n    send Done()\n\n%s" % (starts, render(t, lambda x: "$r%s.Finished()" % x.lower()), flows)
+    raise ValueError(kind)
 
 
 def program(t, kind, imm=()):
@@ -136,6 +153,25 @@ def cases(tier, seed):
                 for seq in _seqs(leaves, True):
                     i += 1
                     yield {"id": i, "kind": kind, "tree": t, "seq": seq, "mode": "noisy", "api": True}
+    # the statement in a loop (re-activated after every completion): all trees with 2-3 leaves x all event sequences of
+    # length 4 (2 leaves) / a third of those of length 5 (3 leaves); sampled: 3-5 leaves, length 5-12
+    rngl = random.Random(3000 + seed)
+    for kind in KINDS:
+        for nl in (2, 3):
+            leaves = ["E%d" % j for j in range(nl)]
+            for t in trees(leaves):
+                for seq in itertools.product(leaves, repeat=4 if nl == 2 else 5):
+                    if nl == 3 and (tier == "quick") and rngl.random() > 0.34:
+                        continue
+                    i += 1
+                    yield {"id": i, "kind": kind, "tree": t, "seq": list(seq), "mode": "loop"}
+    for _ in range(600 if tier == "quick" else 12000):
+        nl = rngl.randint(3, 5)
+        leaves = ["E%d" % j for j in range(nl)]
+        t = _rand_tree(rngl, leaves)
+        seq = [rngl.choice(leaves + ["X"]) for _ in range(rngl.randint(5, 12))]
+        i += 1
+        yield {"id": i, "kind": rngl.choice(KINDS), "tree": t, "seq": seq, "mode": "loop", "api": rngl.random() < 0.15}
     # sampled larger formulas
     rng = random.Random(1000 + seed)
     nsamp = 1500 if tier == "quick" else 40000
@@ -167,6 +203,8 @@ def run_case(case):
 
     L = v2h.load()
     t, kind, seq, mode = case["tree"], case["kind"], case["seq"], case["mode"]
+    if mode == "loop":
+        return run_loop(case)
     imm = tuple(case.get("imm") or ())
     src = program(t, kind, imm)
     L["random"].reset(seed=zlib.crc32(repr((t, kind, seq)).encode()))
@@ -238,7 +276,60 @@ def run_case(case):
     return dict(base, verdict="held", observed=obs)
 
 
+def run_loop(case):
+    """oracle: S = events received since the statement was (re-)activated; it completes - and the marker appears - at exactly
+    the events at which the formula becomes true on S, after which S is empty again"""
+    from . import steps, v2h
+
+    L = v2h.load()
+    t, kind, seq = case["tree"], case["kind"], case["seq"]
+    src = loop_program(t, kind)
+    L["random"].reset(seed=zlib.crc32(repr((t, kind, seq)).encode()))
+    L["clock"].reset()
+    groups = len(dnf(t))
+    obs = {"events_fed": 0, "loop_cases": 1, "cases_through_process_events": int(bool(case.get("api")))}
+    sample = {"kind": kind, "formula": render(t, lambda x: x), "events": seq, "loop": True}
+    base = {"key": repr((kind, t, seq, "loop", bool(case.get("api")))), "imm": [], "nontrivial": (ops(t) == {"and", "or"} or len(leaves_of(t)) >= 3),
+            "sample": sample, "kind": kind, "groups": groups, "loop": True}
+    api = None
+    try:
+        if case.get("api"):
+            api = v2h.ApiSession(src)
+            st = api.st
+        else:
+            st = v2h.mk(src)
+    except v2h.LoaderReject as e:
+        return dict(base, verdict="inconclusive", reason="loader-reject", detail=str(e), nontrivial=False)
+    S, exp, fired, err = set(), [], [], None
+    for i, e in enumerate(seq):
+        try:
+            out = api.run({"type": e}) if api is not None else v2h.run(st, {"type": e})
+        except steps.StepBudgetExceeded:
+            return dict(base, verdict="inconclusive", reason="expected:nonterminating(C10)", nontrivial=False)
+        except Exception as ex:
+            err = "%s: %s" % (type(ex).__name__, str(ex)[:120])
+            break
+        obs["events_fed"] += 1
+        S.add(e)
+        if evaluate(t, S):
+            exp.append(i)
+            S = set()
+        fired += [i] * v2h.types(out).count("Done")
+    obs["loop_completions_%d" % min(len(exp), 4)] = 1
+    abandoned = len(exp) >= 1 and groups >= 2
+    obs["loop_cases_completing_with_another_group_partly_seen"] = int(abandoned)
+    sample["completion_indices"] = exp
+    sample["marker_indices"] = fired
+    if err is not None or fired != exp:
+        return dict(base, verdict="violated", observed=obs,
+                    witness={"program": src, "events": seq, "expected_indices": exp, "marker_indices": fired, "exception": err, "dnf_groups": groups})
+    return dict(base, verdict="held", observed=obs)
+
+
 def classify(r):
+    if r.get("loop"):
+        w = r.get("witness", {})
+        return "loop:" + ("exception:" + w["exception"].split(":")[0] if w.get("exception") else "completion-indices-differ:%s" % r.get("kind"))
     if r.get("imm") and r.get("kind") in ("await", "when") and r.get("imm_in_and_group"):
         # structural: a member flow that finishes while it is being started sits in an and-group with other members; the
         # statement starts the members one after the other and only then begins to wait for their Finished events
